@@ -362,12 +362,13 @@ func c09(o Opts) error {
 		nhead = 3000
 	}
 	c09HeadCases(rng, res, &coq, nhead)
+	c09TailCases(rng, res, &coq, nhead)
 	t1 := time.Now()
 	if err := c09VProg(o, rng, res); err != nil {
 		return err
 	}
 	res.Notes = append(res.Notes, fmt.Sprintf("lake part %.0fs, program part %.0fs, child processes spawned %d", t1.Sub(t0).Seconds(), time.Since(t1).Seconds(), totalSpawns))
-	coq.WriteString("Definition M := Eval vm_compute in (decode_mismatches agg_cases, countby_mismatches agg_cases, sum_mismatches agg_cases, plan_mismatches plan_cases, head_mismatches head_cases).\nPrint M.\n")
+	coq.WriteString("Definition M := Eval vm_compute in (decode_mismatches agg_cases, countby_mismatches agg_cases, sum_mismatches agg_cases, plan_mismatches plan_cases, head_mismatches head_cases, tail_mismatches tail_cases).\nPrint M.\n")
 	if err := os.WriteFile(o.Out+"/cases.v", []byte(coq.String()), 0644); err != nil {
 		return err
 	}
